@@ -641,6 +641,72 @@ func escapeHelperForm(c *Ctx, root *packages.Package, fd *ast.FuncDecl, got map[
 		if !ok || len(as.Lhs) != 2 || len(as.Rhs) != 1 {
 			return true
 		}
+		// the table as a package level map: if d, ok := stringEscapes[e]; ok { write(d) } else { write('\\'); write(e) }
+		if ix, isIx := ast.Unparen(as.Rhs[0]).(*ast.IndexExpr); isIx {
+			okId, ok1 := as.Lhs[1].(*ast.Ident)
+			dId, ok2 := as.Lhs[0].(*ast.Ident)
+			cond, ok3 := ast.Unparen(ifs.Cond).(*ast.Ident)
+			tid, ok4 := ast.Unparen(ix.X).(*ast.Ident)
+			if !ok1 || !ok2 || !ok3 || !ok4 || info.ObjectOf(cond) != info.ObjectOf(okId) {
+				return true
+			}
+			tv, ok := info.ObjectOf(tid).(*types.Var)
+			if !ok || tv.Pkg() == nil || tv.Parent() != tv.Pkg().Scope() {
+				return true
+			}
+			lit, has := singleDefExpr[tv]
+			if !has {
+				return true
+			}
+			cl, ok := ast.Unparen(lit).(*ast.CompositeLit)
+			if !ok {
+				return true
+			}
+			if _, isMap := info.TypeOf(cl).Underlying().(*types.Map); !isMap {
+				return true
+			}
+			tbl := map[int64]int64{}
+			for _, el := range cl.Elts {
+				kv, ok := el.(*ast.KeyValueExpr)
+				if !ok {
+					return true
+				}
+				ktv, vtv := info.Types[kv.Key], info.Types[kv.Value]
+				if ktv.Value == nil || vtv.Value == nil {
+					return true
+				}
+				k, okk := constant.Int64Val(constant.ToInt(ktv.Value))
+				v, okv := constant.Int64Val(constant.ToInt(vtv.Value))
+				if !okk || !okv {
+					return true
+				}
+				tbl[k] = v
+			}
+			thenW, okT := writes(ifs.Body)
+			if !okT || len(thenW) != 1 {
+				return true
+			}
+			if id, ok := ast.Unparen(thenW[0]).(*ast.Ident); !ok || info.ObjectOf(id) != info.ObjectOf(dId) {
+				return true
+			}
+			if eb, ok := ifs.Else.(*ast.BlockStmt); ok {
+				if ws, okE := writes(eb); okE && len(ws) == 2 {
+					if wtv := info.Types[ws[0]]; wtv.Value != nil {
+						if v, ok := constant.Int64Val(constant.ToInt(wtv.Value)); ok && v == '\\' {
+							if _, isId := ast.Unparen(ws[1]).(*ast.Ident); isId && nodeStr(c.Fset, ws[1]) == nodeStr(c.Fset, ix.Index) {
+								keeps = true
+							}
+						}
+					}
+				}
+			}
+			for k, v := range tbl {
+				got[k] = v
+			}
+			// the switch statement the caller reports at: none - use a synthetic one at the position of the if
+			hsw, found = &ast.SwitchStmt{Switch: ifs.Pos(), Body: &ast.BlockStmt{}}, true
+			return true
+		}
 		call, ok := ast.Unparen(as.Rhs[0]).(*ast.CallExpr)
 		if !ok || len(call.Args) != 1 {
 			return true
@@ -1079,6 +1145,30 @@ exclusion:
 						sort.Slice(b, func(i, j int) bool { return b[i] < b[j] })
 						if string(a) != string(b) {
 							problems = append(problems, fmt.Sprintf("%s excludes %q", name, s))
+						}
+					}
+				}
+				// the exclusion as a range table of the package: unicode.Is(superscriptDigits, r)
+				if cal := Callee(info, call); cal != nil && cal.Pkg() != nil && cal.Pkg().Path() == "unicode" && (cal.Name() == "Is" || cal.Name() == "In") && len(call.Args) == 2 {
+					if tid, ok := ast.Unparen(call.Args[0]).(*ast.Ident); ok {
+						rp := &runePred{c: c, pkg: root}
+						if set, ok := rp.rangeTableLiteral(tid); ok {
+							nStr++
+							var want runeSet
+							for _, r := range supers {
+								want = append(want, runeIv{r, r})
+							}
+							want = rsNorm(want)
+							if missing, extra := rsMinus(want, set), rsMinus(set, want); len(missing) > 0 || len(extra) > 0 {
+								msg := name + " excludes the table " + tid.Name
+								if len(missing) > 0 {
+									msg += ", which lacks " + rsString(missing, 6)
+								}
+								if len(extra) > 0 {
+									msg += ", which also holds " + rsString(extra, 6)
+								}
+								problems = append(problems, msg)
+							}
 						}
 					}
 				}
